@@ -105,6 +105,9 @@ func init() {
 			b := (*args[0].(*value)).(structure)
 			return mkstr(b[1].([]value))
 		},
+		"(*strings.Builder).copyCheck": noop,
+		"internal/abi.NoEscape":        func(fr *frame, args []value) value { return args[0] },
+		"internal/abi.Escape":          func(fr *frame, args []value) value { return args[0] },
 		"internal/stringslite.Clone": func(fr *frame, args []value) value { return args[0] },
 		"strings.Clone":              func(fr *frame, args []value) value { return args[0] },
 		// ---- internal/bytealg (assembly on amd64) ----
